@@ -2123,7 +2123,7 @@ def laplacian_regularizer(weights, lattice_sizes, l1=0.0, l2=0.0):
     l2 = [l2] * rank
 
   if weights.shape[1] > 1:
-    lattice_sizes = lattice_sizes + [int(weights.shape[1])]
+    lattice_sizes = list(lattice_sizes) + [int(weights.shape[1])]
     rank += 1
     if l1:
       l1 = list(l1) + [0.0]
@@ -2202,7 +2202,7 @@ def torsion_regularizer(weights, lattice_sizes, l1=0.0, l2=0.0):
     l2 = [math.sqrt(l2)] * rank
 
   if weights.shape[1] > 1:
-    lattice_sizes = lattice_sizes + [int(weights.shape[1])]
+    lattice_sizes = list(lattice_sizes) + [int(weights.shape[1])]
     rank += 1
     if l1:
       l1 = list(l1) + [0.0]
